@@ -281,6 +281,41 @@ def day_grouping():
     return Q()
 
 
+DAY_TABLE = [(2024, 2, 15), (2024, 2, 29), (2024, 3, 1), (2024, 2, 26), (2024, 12, 31), (2025, 1, 1), (2024, 3, 31), (2023, 2, 28)]
+
+
+def day_pairs():
+    """Two payments of one merchant on days picked (symbolic indices) from a table with a leap day, month ends, a year end and
+    the same day twice: by("day") puts them in one group exactly when the days are equal, by("week") (within one year) exactly when
+    they share the Monday-based week; by("month") / by("year") likewise."""
+    def ob(i: int, j: int) -> bool:
+        """
+        pre: 0 <= i < 8 and 0 <= j < 8
+        post: _
+        """
+        from datetime import datetime, timedelta
+        from engine.ob import pick
+        from tally.analyzer import analyze_transactions, classify_by_sections
+        from tally.section_engine import parse_sections
+        i, j = pick(i, 8), pick(j, 8)
+        reset_tally_caches()
+        d1, d2 = datetime(*DAY_TABLE[i]), datetime(*DAY_TABLE[j])
+        tx = [{'merchant': 'M', 'category': 'C', 'subcategory': 'S', 'date': d, 'amount': a, 'tags': [], 'description': 'M', 'source': 'S'}
+              for d, a in ((d1, 10.0), (d2, 20.0))]
+        st = analyze_transactions(tx)
+        cfg = parse_sections('[SameDay]\nfilter: max(count(by("day"))) >= 2\n\n[SameWeek]\nfilter: max(count(by("week"))) >= 2\n\n'
+                             '[SameMonth]\nfilter: max(count(by("month"))) >= 2\n\n[SameYear]\nfilter: max(count(by("year"))) >= 2\n\n[DaySum]\nfilter: max(sum(by("day"))) > 25\n')
+        r = classify_by_sections(st['by_merchant'], cfg, st['num_months'])
+        got = {name: [n for n, _ in members] == ['M'] for name, members in r.items()}
+        ok = got['SameDay'] == (d1 == d2) and got['DaySum'] == (d1 == d2)
+        ok = ok and got['SameMonth'] == ((d1.year, d1.month) == (d2.year, d2.month)) and got['SameYear'] == (d1.year == d2.year)
+        if d1.year == d2.year:
+            monday = lambda d: d - timedelta(days=d.weekday())
+            ok = ok and got['SameWeek'] == (monday(d1) == monday(d2) or (monday(d1).year < d1.year and monday(d2).year < d2.year))
+        return post(ok)
+    return ob
+
+
 def obligations(tier, seed):
     q = tier == 'quick'
     obs = []
@@ -298,6 +333,8 @@ def obligations(tier, seed):
     for h in HISTORIES:
         obs.append(Obligation(id=f'cv-{h}', factory='cv_threshold', params={'hist': h}, reals=True, opaque=True, timeout=to, group='cv (population coefficient of variation)',
                               bounds=f'concrete history {HISTORIES[h]}; symbolic real threshold'))
+    obs.append(Obligation(id='day-pairs', factory='day_pairs', timeout=to, group='by("day") / by("week")',
+                          bounds=f'two payments on days picked by symbolic indices from {DAY_TABLE} (leap day, month / year ends); five grouping filters'))
     obs.append(Obligation(id='day-week-grouping', factory='day_grouping', engine='smt', twin=False, timeout=60,
                           group='by("day") / by("week")', bounds='two payments on different days of one month'))
     return obs
